@@ -33,6 +33,9 @@ import sys
 sys.path.insert(0, os.path.dirname(os.path.abspath(__file__)))
 import astutil_G1 as U  # noqa: E402
 
+# the plug-in and its helpers are inputs too: a change of either regenerates the file
+SELF = ["../verif-self:tools/gen/workers.py", "../verif-self:tools/gen/astutil_G1.py"]
+
 from translate import TranslateError, generator, rat, HEADER  # noqa: E402
 
 SRC = "osaca/semantics/kernel_dg.py"
@@ -227,7 +230,7 @@ def _find_slices(fn, roles):
 
 
 # --------------------------------------------------------------------------- the generator
-@generator("WorkersConsts", [SRC])
+@generator("WorkersConsts", [SRC] + SELF)
 def gen_workers():
     U.reset_cache()
     cls = U.mod_scope(SRC).cls(CLS)
